@@ -9,6 +9,7 @@
 -/
 import NemoVerif.Lemmas.Bind
 import NemoVerif.Lemmas.BindHeap
+import NemoVerif.Lemmas.BindHeapEntries
 import NemoVerif.Lemmas.BindSurplus
 import NemoVerif.Lemmas.BindProgress
 namespace NemoVerif.C08
@@ -267,6 +268,13 @@ example : WellFormedCall [⟨"a", none⟩] [⟨"r", some (.lit (.list []))⟩] [
 theorem defaults_fresh (flows : List (String × HFlowDef)) (fuel : Nat) (s : HSt) (u : Nat) (body : List HStmt) :
     ∀ e ∈ (hexec flows fuel s u body).1.entries, e ∈ s.entries ∨ EntryOK flows e :=
   hexec_entriesOK flows fuel s u body
+
+/-- **Return members are fresh, every call of every history** (induction over whole executions of `hexec`, from any
+    state): every callee entry recorded obeys `EntryRetOK` — for a well-formed call of a flow whose return members
+    have distinct names, each return member shows its declared default in the entry context. -/
+theorem return_members_fresh (flows : List (String × HFlowDef)) (fuel : Nat) (s : HSt) (u : Nat) (body : List HStmt) :
+    ∀ e ∈ (hexec flows fuel s u body).1.entries, e ∈ s.entries ∨ EntryRetOK flows e :=
+  hexec_entriesRetOK flows fuel s u body
 
 /-- … in particular for every call of a whole program -/
 theorem defaults_fresh_program (flows : List (String × HFlowDef)) (fuel : Nat) (main : List HStmt) :
